@@ -104,16 +104,18 @@ class DBusClientConnection (txdbus.protocol.BasicDBusProtocol):
         established = self.busName is not None
 
         if established:
-            for cb in self._dcCallbacks:
+            # iterate a copy: a callback may unregister itself
+            for cb in list(self._dcCallbacks):
                 cb(self, reason)
 
         # Also before the Hello reply arrived: failing the pending Hello call
         # is what fails connect()'s Deferred in that case.
-        for d, timeout in self._pendingCalls.values():
+        # detach the table first: an errback may issue a new call
+        pending, self._pendingCalls = self._pendingCalls, {}
+        for d, timeout in pending.values():
             if timeout:
                 timeout.cancel()
             d.errback(reason)
-        self._pendingCalls = {}
 
         if established:
             self.objHandler.connectionLost(reason)
